@@ -236,6 +236,7 @@ func checkC19(c *Ctx) {
 	checkCloneSQL(c, rk)
 	checkC19Readers(c)
 	checkC19VarsFrozen(c)
+	checkC19BatchTx(c)
 
 	// ---- C19.subquery ----
 	rq := c.Rule("C19.subquery", "every pipeline execution started while rendering a value (Statement.AddVar) runs on a Session{DryRun: true} handle", 1)
